@@ -50,7 +50,19 @@ def record_call(vq, x, **kw):
             r.mask = [list(flat) for _ in range(H)]
         else:
             r.mask = None
-        out = orig(xin, *a, **k)
+        # the state right after the (k-means) initialisation inside this very call: init_embed_ is wrapped for the duration of the call
+        r.after_init = None
+        orig_init = cb.init_embed_
+
+        def init_wrapped(*ia, **ik):
+            res_ = orig_init(*ia, **ik)
+            r.after_init = cb_state(cb)
+            return res_
+        cb.init_embed_ = init_wrapped
+        try:
+            out = orig(xin, *a, **k)
+        finally:
+            del cb.init_embed_
         quantize, embed_ind, dist = out
         q4 = quantize if xin.ndim == 4 else quantize[None]
         i4 = embed_ind if xin.ndim == 4 else embed_ind[None]
